@@ -52,5 +52,24 @@ def pipePinnedToks : List Token := [
   ⟨.newline, [10], ⟨1, 22, 21⟩, ⟨2, 1, 22⟩⟩,
   ⟨.eof, [], ⟨2, 1, 22⟩, ⟨2, 1, 22⟩⟩]
 """)
+out.append("""/-- The tokens the PINNED lexer (HL/Model/LexerPinned.lean: only LF ends a line, before the
+    `fix:` commit for CRLF line ends) returned for `crlfText`: the comment's value and extent
+    include the CR.  As the witness was recorded then; `HL.Props.C17` proves it equal to the
+    pinned lexer model's output.  Used only by `pinned_crlf_comment_length_counterexample`. -/
+def crlfPinnedToks : List Token := [
+  ⟨.comment, [32, 110, 111, 116, 101, 13], ⟨1, 1, 0⟩, ⟨1, 8, 7⟩⟩,
+  ⟨.newline, [10], ⟨1, 8, 7⟩, ⟨2, 1, 8⟩⟩,
+  ⟨.eof, [], ⟨2, 1, 8⟩, ⟨2, 1, 8⟩⟩]
+
+/-- The tokens the PINNED lexer returned for `trim2Text` (`account a:b` + CRLF): an empty Text
+    token on the CR.  As the witness was recorded then; used only by
+    `pinned_text_trimmed_position_counterexample`. -/
+def trim2PinnedToks : List Token := [
+  ⟨.directive, [97, 99, 99, 111, 117, 110, 116], ⟨1, 1, 0⟩, ⟨1, 8, 7⟩⟩,
+  ⟨.account, [97, 58, 98], ⟨1, 9, 8⟩, ⟨1, 12, 11⟩⟩,
+  ⟨.text, [], ⟨1, 12, 11⟩, ⟨1, 13, 12⟩⟩,
+  ⟨.newline, [10], ⟨1, 13, 12⟩, ⟨2, 1, 13⟩⟩,
+  ⟨.eof, [], ⟨2, 1, 13⟩, ⟨2, 1, 13⟩⟩]
+""")
 out.append("end HL.Lemmas.SemTok.W\n")
 open(os.path.join(ROOT, "lean", "HL", "Lemmas", "SemTokWitness.lean"), "w").write("\n".join(out))
